@@ -631,6 +631,7 @@ def run(ctx):
 
     auto_flag_discipline(ctx)
     one_source_text(ctx)
+    unwrap_inventory(ctx)
 
 
 def auto_flag_discipline(ctx):
@@ -737,3 +738,64 @@ def one_source_text(ctx):
     if kinds != {'parse', 'render'}:
         r11.fail('anchor/uses', fam[0].file, 'expected one parse and at least one resolve_with_input in feed_file (found %s)' % sorted(kinds))
     r11.need(2)
+
+
+UNWRAP_FILES = ('src/xtype.rs', 'src/compilation_scope.rs', 'src/root_compilation_scope.rs', 'src/compile_err.rs', 'src/builtin/core.rs')
+UNWRAP_OK = {
+    # (function, Option | Result [+ which map]): the invariant that makes the value present -- confirmed by reading
+    ('<util::special_prefix_interner::SpecialPrefixSymbol as compile_err::Resolve>::resolve', 'Option'): 'symbols are resolved with the interner that interned them',
+    ('<xtype::XCompoundSpec as compile_err::Resolve>::resolve', 'Option'): 'symbols are resolved with the interner that interned them',
+    ('xtype::XType::to_string_with_interner', 'Option'): 'symbols are resolved with the interner that interned them',
+    ('xtype::XType::resolve_bind', 'Option:native'): 'the map was filled two lines above from the same generic_names() of the native type',
+    ('xtype::CallbackType::new', 'Option'): 'called by get_func_with_type with the argument types the overload was just resolved with: that resolution performed the same spec.bind successfully',
+    ('compilation_scope::CompilationScope::ancestor_at_depth', 'Option'): 'capture depths are produced by get_item, which counted existing ancestors (the C03 rules decide the producers)',
+    ('compilation_scope::CompilationScope::compile', 'Option'): 'dominated by the args.len() != 1 rejection of the variant constructor (R04.2 decides that test)',
+    ('compilation_scope::CompilationScope::type_of', 'Option'): 'a Recourse cell exists only inside the function whose scope recorded recourse_xtype',
+    ('root_compilation_scope::RootCompilationScope::feed_file', 'Option'): 'a successful parse of Rule::header yields exactly that pair',
+    ('root_compilation_scope::RootCompilationScope::generics_from_names', 'Result'): 'the vector was built from an array of the same const length N',
+    ('builtin::core::get_func_with_type', 'Result'): 'type_of of the overload reference get_func just produced',
+    ('builtin::core::unpack_dyn_types', 'Result'): 'dominated by the length test against N',
+    ('builtin::core::unpack_dyn_types_at_least', 'Result'): 'take(N) after the length test against N',
+    ('builtin::core::unpack_dyn_types_with_optional', 'Result'): 'take(N) / pad_using(P) after the length test against N and N + P',
+    ('builtin::core::unpack_compounds', 'Result'): 'M is the number of generic parameters the registering native declared for that compound',
+}
+
+
+def _short_ty(ty):
+    ty = re.sub(r'\b(std|core|alloc)::(\w+::)*', '', ty)
+    ty = re.sub(r'\b(\w+::)+', '', ty)
+    ty = re.sub(r"'\w+ ?", '', ty)
+    ty = re.sub(r'<W, R, T>|<\'_, W, R, T>|<_, W, R, T>', '', ty)
+    return ty.replace(' ', '')
+
+
+def unwrap_inventory(ctx):
+    """R12.12: in the type layer (type relations, compilation scope, entry point, error rendering, the compile-time helpers of the
+    dynamic functions) every Option / Result that is unwrapped is listed with the invariant that makes the value present; a new or
+    unlisted unwrap is reported (a None there is a compiler crash, not a compilation error)."""
+    from .lib.facts import callee_name
+    mir = ctx.mir
+    r12 = ctx.rule('R12.12', 'unwraps of the type layer are listed with the invariant that makes the value present')
+    for b in mir.bodies:
+        if b.file not in UNWRAP_FILES or '::tests::' in b.nid:
+            continue
+        fn = strip_generics(mir.enclosing_fn(b)) if b.kind == 'closure' else b.nid
+        for bb, t in b.calls():
+            nm = strip_generics(callee_name(t) or '')
+            if nm not in ('std::option::Option::unwrap', 'std::option::Option::expect', 'std::result::Result::unwrap', 'std::result::Result::expect') or b.is_cleanup(bb):
+                continue
+            ty = 'Option' if 'option::Option' in nm else 'Result'
+            key = (fn, ty)
+            if fn == 'xtype::XType::resolve_bind':
+                # two different maps are read there: the freshly built one of a native type, and the stored binding of a compound
+                arg = op_place(t['args'][0])
+                sl = mirq.backslice(b, [arg['l']]) if arg is not None else set()
+                fresh = b.kind == 'closure' or any(strip_generics(callee_name(ct) or '').endswith('HashMap::new') and ct['dest']['l'] in sl for cbb, ct in b.calls())
+                key = (fn, ty + (':native' if fresh else ':compound'))
+            why = UNWRAP_OK.get(key)
+            r12.inst({'fn': fn, 'site': mirq.site(b, bb), 'unwrapped': key[1], 'listed': why is not None}, ok=why is not None, kind=(b.nid, bb))
+            if why is not None:
+                r12.exempted('%s: %s' % key, why)
+            else:
+                r12.fail('%s/unwrap/%s' % (fn, re.sub(r'[^A-Za-z0-9:]+', '-', key[1]).strip('-')), mirq.site(b, bb), 'an unlisted unwrap of an %s in the type layer: when the value is absent the compiler panics instead of reporting a compilation error (the binding of a compound type can be partial: union Nested<T>(x: T, y: Sequence<Nested<T>>) let f = ()->{Nested::y([])}; let z = f(); crashes in resolve_bind)' % key[1])
+    r12.need(12)
